@@ -593,10 +593,16 @@ def h_elementwise(sign_rule=None, keeps_norm=False, dtype=None, nargs=1):
 def h_maximum(ev, name, pos, kw, ctx, t):
     a = argval(pos, kw, 0, None) or UNKNOWN
     b = argval(pos, kw, 1, None) or UNKNOWN
+
+    def vanishes_in_single(c, other):
+        # a python float below the smallest normal single-precision number is cast to the dtype of the array it is compared with: 0.0 for float32 / complex64 data
+        return c.is_const and isinstance(c.cval, float) and 0 < c.cval < 1.1754944e-38 and not (other.kind is not TOP and other.kind <= {'scalar'})
+    a_sign = 'NONNEG' if vanishes_in_single(a, b) else a.sign
+    b_sign = 'NONNEG' if vanishes_in_single(b, a) else b.sign
     sign = None
-    if a.sign == 'POS' or b.sign == 'POS':
+    if a_sign == 'POS' or b_sign == 'POS':
         sign = 'POS'
-    elif a.sign == 'NONNEG' or b.sign == 'NONNEG':
+    elif a_sign == 'NONNEG' or b_sign == 'NONNEG':
         sign = 'NONNEG'
     shape = broadcast_shape(a.shape, b.shape) if (a.shape is not None and b.shape is not None) else (a.shape if (b.kind is not TOP and b.kind <= {'scalar'}) or b.shape is None else b.shape)
     ncore = None
